@@ -193,6 +193,47 @@ func bindingAlphabet(st *State, cfg *ExploreCfg) []Ev {
 	return ops
 }
 
+// governance moves among the lifecycle's: the parameters change under a batch in flight
+func paramsAlphabet(st *State, cfg *ExploreCfg) []Ev {
+	var ops []Ev
+	alt := func(f func(p *MParams)) {
+		p := *smallParams()
+		f(&p)
+		q := st.Params
+		q.Lax, p.Lax = false, false
+		if p != q {
+			ops = append(ops, Ev{Name: "SetParams", RParams: &p})
+		}
+	}
+	alt(func(p *MParams) {})
+	alt(func(p *MParams) { p.MaxTimeout = 1 })
+	alt(func(p *MParams) { p.Slash = 1000; p.Tax = 0 })
+	alt(func(p *MParams) { p.Slash = 0; p.MinDeposit = 50; p.RefundDelay = 2 })
+	for _, a := range st.ActId {
+		for _, q := range st.Req {
+			if q.Rid == a {
+				ops = append(ops, Ev{Name: "Respond", Signer: q.Prov, Rid: a, Kind: "valid"},
+					Ev{Name: "Respond", Signer: q.Prov, Rid: a, Kind: "bad"})
+			}
+		}
+	}
+	for _, x := range st.Ctx {
+		ops = append(ops, Ev{Name: "Pause", Signer: x.Cons, ID: x.ID}, Ev{Name: "Start", Signer: x.Cons, ID: x.ID},
+			Ev{Name: "UpdateContext", Signer: x.Cons, ID: x.ID, Timeout: 1},
+			Ev{Name: "UpdateContext", Signer: x.Cons, ID: x.ID, Timeout: 2, Freq: 3})
+	}
+	if st.NCtx < cfg.MaxCtx {
+		ops = append(ops, Ev{Name: "Call", Signer: "c2", Svc: "s1", Provs: []string{"p2"}, Cap: 10, Timeout: 2})
+	}
+	ops = append(ops,
+		Ev{Name: "Disable", Signer: "o1", Svc: "s1", Prov: "p2"},
+		Ev{Name: "Enable", Signer: "o1", Svc: "s1", Prov: "p2"},
+		Ev{Name: "RefundDeposit", Signer: "o1", Svc: "s1", Prov: "p2"},
+		Ev{Name: "UpdateBinding", Signer: "o1", Svc: "s1", Prov: "p1", Qos: 2},
+		Ev{Name: "EndBlock", Dt: 2})
+	return ops
+}
+
 // Exhaustive search to a small depth around prepared states: the prefix is executed (unlogged)
 // before the search starts, so that the interesting interleavings (responses, pause / start /
 // kill / update, disable, withdrawals, block ends around a batch in flight, a batch answered
@@ -217,6 +258,8 @@ func ExploreConfigs() map[string]*ExploreCfg {
 		"oneshot":   lc("oneshot", 4, Ev{Name: "Call", Signer: "c1", Svc: "s1", Provs: []string{"p1", "p2"}, Cap: 10, Timeout: 2}, eb(1)),
 		"module": lc("module", 4, Ev{Name: "ModCreate", Signer: "c1", Svc: "s1", Provs: []string{"p1", "p2"}, Cap: 10, Timeout: 2, Rep: true, Freq: 2, Total: 3, Thr: 2}, eb(1),
 			Ev{Name: "Respond", Signer: "p1", Rid: rid(1, 1, 1, 0), Kind: "valid"}),
+		"params": {Name: "params", MaxDepth: 4, MaxCtx: 2, MaxH: 9, Alphabet: paramsAlphabet,
+			Reset: Ev{Name: "reset", RParams: p, Tag: "explore-params", RBal: bal, RInit: append(append([]Ev{}, reg...), repCall, eb(1))}},
 		"binding": {Name: "binding", MaxDepth: 5, MaxCtx: 0, MaxH: 3, Alphabet: bindingAlphabet,
 			Reset: Ev{Name: "reset", RParams: p, Tag: "explore-binding", RBal: map[string]int64{"o1": 30, "o2": 16},
 				RInit: []Ev{{Name: "Define", Signer: "o1", Svc: "s1"}}}},
